@@ -52,6 +52,59 @@ def run(F, chk):
                 chk.instance(R1, ok=True, nontrivial=False)  # unreachable under folded constants
     chk.floor(R1, 2)
 
+    # ------------------------------------------------------------------ R16.3 loader validity checks
+    R3 = chk.rule("R16.3", "Load tests the header's validity and the version predicate (clearing and returning non-zero) before any "
+                           "block is read; `valid = true` is the last statement of NiHeader::Get; on the load path every subscript "
+                           "of a header table by a value read from another header table is range-guarded")
+    import c15
+    load = [f for f in F.fn_named("nifly::NifFile::Load") if "istream" in f["id"]]
+    chk.require(len(load) == 1, "NifFile::Load(std::istream&) not found")
+    load = load[0]
+
+    class L(flow.Flow):
+        def __init__(self, *a):
+            super().__init__(*a)
+            self.sites = []
+
+        def on_node(self, n, st):
+            if st is None:
+                return st
+            if n["k"] == "Call" and n.get("short") == "Load" and "NiFactory" in (n.get("cls") or "") and not self.muted:
+                self.sites.append((n, st))
+            if n["k"] == "Call" and n.get("short") == "make_unique" and any("NiUnknown" in str(t) for t in n.get("targs", [])) and not self.muted:
+                self.sites.append((n, st))
+            return st
+
+    l = L(F, load)
+    l.run()
+    chk.require(len(l.sites) >= 2, "block construction sites in Load not recognised")
+    for n, st in l.sites:
+        valid = any(f[0] == "G" and "IsValid" in f[1] and f[2] is True for f in st)
+        version_ok = any(f[0] == "G" and f[2] is True and "IsOB()" in f[1] and "||" in f[1] for f in st)
+        ok = valid and version_ok
+        chk.instance(R3, ok=ok, sample={"site": show(n)[:50], "after_IsValid": valid, "after_version_test": version_ok})
+        if not ok:
+            chk.violation("R16.3", "C16/R16.3:Load:%s" % ("valid" if not valid else "version"), where(load, n),
+                          "Load reads a block without having %s first" % ("checked hdr.IsValid()" if not valid else "rejected unsupported versions"))
+    get = F.fn1("nifly::NiHeader::Get")
+    assigns = [n for n in walk(get["body"]) if n["k"] == "Assign" and show(n["l"]) == "valid"]
+    last = get["body"]["body"][-1] if get["body"].get("body") else None
+    ok = len(assigns) == 1 and last is assigns[0] and assigns[0]["r"].get("val") == 1
+    chk.instance(R3, ok=ok, sample={"NiHeader::Get": "valid = true is the final statement", "ok": ok})
+    if not ok:
+        chk.violation("R16.3", "C16/R16.3:NiHeader::Get:valid", where(get),
+                      "NiHeader::Get must mark the header valid only as its very last statement (a truncated header stays invalid)")
+    load_reach = F.reachable([load["id"]])
+    for fn, n, sidx, kind, ok, note in c15.header_range_guards(F):
+        if note or kind != "table-derived" or fn["id"] not in load_reach:
+            continue
+        chk.instance(R3, ok=ok, sample={"fn": fn["name"], "index": sidx})
+        if not ok:
+            chk.violation("R16.3", "C16/R16.3:%s:%s" % (fn["name"], sidx), where(fn, n),
+                          "%s (on the load path) subscripts a header table with `%s`, a value read from another header table, "
+                          "without an upper-bound test: a file cut between the two tables leaves the second one empty" % (fn["name"], sidx))
+    chk.floor(R3, 4)
+
 
 def _pos_guard(st, d):
     """divisor proven >= 1 by a comparison fact like (0 < d) or !(d < 1)"""
